@@ -129,10 +129,18 @@ def oracle(ctx):
                 want = torch.tensor(acc, dtype=DT)
                 if not torch.allclose(cs, want, rtol=1e-8, atol=1e-9 * scale):
                     ctx.fail("oracle", "squad:cspline-exact:%s" % bc, info, cs, want)
+                # ... and against an independent implementation of the declared spline (scipy), whose antiderivative is exact
+                from scipy.interpolate import CubicSpline
+                anti = CubicSpline(np.array(xs), y.numpy(), bc_type=bc).antiderivative()
+                want2 = torch.tensor(anti(np.array(xs)) - anti(xs[0]), dtype=DT)
+                if not torch.allclose(cs, want2, rtol=1e-8, atol=1e-9 * scale):
+                    ctx.fail("oracle", "squad:cspline-vs-independent-spline:%s" % bc, info, cs, want2)
     # dimension handling: any position of dim, keepdim, negative dims, batch shapes
     x = torch.tensor([0.0, 0.3, 0.7, 1.6, 2.0], dtype=DT)
     nx = 5
-    shapes = [(nx,), (2, nx), (nx, 3), (2, nx, 3), (2, 3, nx), (nx, 2, 3), (2, nx, 3, 4), (nx, 2, 3, 4), (2, 3, 4, nx)]
+    # (shapes with other axes of size 1: only the integration axis may disappear; round-3 seed C15/7: squeeze() of everything)
+    shapes = [(nx,), (2, nx), (nx, 3), (2, nx, 3), (2, 3, nx), (nx, 2, 3), (2, nx, 3, 4), (nx, 2, 3, 4), (2, 3, 4, nx),
+              (1, nx), (nx, 1), (3, 1, nx), (1, nx, 1), (1, 1, nx, 2)]
     for method in ("trapz", "simpson", "cspline"):
         sq = SQuad(x, method=method)
         for shp in shapes:
@@ -158,6 +166,19 @@ def oracle(ctx):
                     ctx.fail("oracle", "squad:integrate-dim:%s" % method, dict(info, keepdim=False), list(i0.shape), list(ref_int.shape))
                 if i1.shape != ref_int.unsqueeze(d).shape or not torch.allclose(i1, ref_int.unsqueeze(d), rtol=1e-12, atol=1e-13):
                     ctx.fail("oracle", "squad:integrate-dim:%s" % method, dict(info, keepdim=True), list(i1.shape), list(ref_int.unsqueeze(d).shape))
+        # one SQuad object, cumsum(y) then integrate(y) after an in-place change of the SAME tensor: integrate is the last entry of
+        # the cumsum of the y it is given (round-3 seed C15/8: spline slopes cached by the identity of y)
+        gq = torch.Generator().manual_seed(77)
+        yq = torch.randn(3, nx, dtype=DT, generator=gq)
+        c1 = sq.cumsum(yq)
+        with torch.no_grad():
+            yq.mul_(-0.7).add_(torch.cos(2.0 * x))
+        i2 = sq.integrate(yq)
+        c2 = sq.cumsum(yq.clone())
+        ctx.count(("reused-object", method))
+        if not torch.allclose(i2, c2[..., -1], rtol=1e-12, atol=1e-13):
+            ctx.fail("oracle", "squad:integrate-after-in-place-update:%s" % method, {"sequence": ["cumsum(y)", "y updated in place", "integrate(y)"]},
+                     {"integrate": i2.tolist(), "last_entry_of_cumsum": c2[..., -1].tolist()}, "equal")
         # wrong length rejected
         for bad in (torch.zeros(nx + 1, dtype=DT), torch.zeros(2, nx - 1, dtype=DT)):
             for fn in (sq.cumsum, sq.integrate):
